@@ -34,24 +34,62 @@ def newer (o t : Inst) : Bool := o.ts > t.ts || (o.ts == t.ts && o.state == .LEF
 
 def eraseTokens (i : Inst) : Inst := { i with tokens := [] }
 
-/-- judge of a single gossip merge (`cas = false`): per entry the newer timestamp wins and at equal
-timestamps the removal wins; nothing else appears; a nil change means untouched content. -/
-def judgeMerge (this other st : Desc) (chg : Option Desc) : List String := Id.run do
+/-- the property's per-entry rule, written from its text: the newer timestamp wins and, at equal
+timestamps, a removal wins; an entry unknown to the receiver is taken (callers guarantee timestamps
+≥ 1); nothing else appears. -/
+def lww (t o : Option Inst) : Option Inst :=
+  match t, o with
+  | none, none => none
+  | some t, none => some t
+  | none, some o => some o
+  | some t, some o => if newer o t then some o else some t
+
+def dedupKeys (l : List String) : List String := l.foldl (fun acc k => if acc.contains k then acc else acc ++ [k]) []
+
+/-- Judge of a single merge, from the property text.
+
+Gossip merge (`cas = false`): per entry the newer timestamp wins and at equal timestamps the removal
+wins; an incoming entry unknown to the receiver is taken; nothing else appears; nothing is lost.
+Token lists are part of the content and are compared EXACTLY unless the last-writer-wins union of the
+two inputs contains a token collision (then the inputs are outside C03's proviso "no two instances
+claim the same token", lists may shrink through conflict resolution — judged by C05 — and only the
+other fields are compared).
+
+Every merge (also a local CAS, whose tombstones are stamped `now`; `casNow = some now`): a nil change
+means untouched content, and the reported change is sufficient — combining it with the pre-merge state
+by the same per-entry rule reproduces the result. -/
+def judgeMerge (casNow : Option Int) (this other st : Desc) (chg : Option Desc) : List String := Id.run do
   let mut bad : List String := []
   let othern := C03.normalize other
   if chg.isNone && showD st != showD this then bad := "nil-change-but-content-changed" :: bad
-  for e in st do
-    let t := C03.get? this e.id
-    let o := C03.get? othern e.id
-    let expect : Option Inst := match t, o with
-      | none, none => none
-      | some t, none => some t
-      | none, some o => some o
-      | some t, some o => if newer o t then some o else some t
-    -- token lists may legitimately shrink through conflict resolution; compare the other fields
-    if expect.map eraseTokens != some (eraseTokens e) then bad := s!"lww-violated:{e.id}" :: bad
-  for t in this do
-    if (C03.get? st t.id).isNone then bad := s!"entry-lost:{t.id}" :: bad
+  let keys := dedupKeys (this.map (·.id) ++ othern.map (·.id))
+  -- last-writer-wins union of the inputs (for a local CAS: with the entries missing from `other` removed)
+  let expectOf (k : String) : Option Inst :=
+    let e := lww (C03.get? this k) (C03.get? othern k)
+    match casNow, e with
+    | some now, some x =>
+      if (C03.get? othern k).isNone && x.state != .LEFT then some { x with state := .LEFT, tokens := [], ts := now } else e
+    | _, _ => e
+  let pre := keys.filterMap expectOf
+  let clash := C03.conflictsExist pre
+  let view (e : Option Inst) : Option Inst := if clash then e.map eraseTokens else e
+  if !C03.uniqueIds st then bad := "duplicate-ids" :: bad
+  if casNow.isNone then
+    for k in keys do
+      let expect := expectOf k
+      let got := C03.get? st k
+      if got.isNone && expect.isSome then
+        bad := (if (C03.get? this k).isSome then s!"entry-lost:{k}" else s!"incoming-entry-missing:{k}") :: bad
+      else if view expect != view got then
+        bad := (if expect.map eraseTokens == got.map eraseTokens then s!"tokens-not-last-writer's:{k}" else s!"lww-violated:{k}") :: bad
+    for e in st do
+      if !keys.contains e.id then bad := s!"entry-from-nowhere:{e.id}" :: bad
+  -- the reported change, combined with the pre-merge state by the same rule, reproduces the result
+  match chg with
+  | none => pure ()
+  | some ch =>
+    for k in dedupKeys (keys ++ ch.map (·.id) ++ st.map (·.id)) do
+      if view (lww (C03.get? this k) (C03.get? ch k)) != view (C03.get? st k) then bad := s!"change-insufficient:{k}" :: bad
   return bad
 
 def handleMerge (f : List String) : String × String × String :=
@@ -66,8 +104,11 @@ def handleMerge (f : List String) : String × String × String :=
       let diff := if ms == st && mc == chg then "-" else s!"state={ms} change={mc}"
       let ichg : Option Desc := if chg == "nil" then none else parseDesc chg
       -- the per-merge judge applies to gossip merges of positive-timestamp, normalised receivers
-      let inq := !cas && normalised this && posTs this && posTs other && C03.uniqueIds other
-      let j := if inq then judgeMerge this other ist ichg else []
+      -- local CAS: the tombstones are stamped `now`, which must not lie behind the entries it removes
+      -- (`PC03.cas_change_insufficient_when_clock_behind`)
+      let inq := normalised this && posTs this && posTs other && C03.uniqueIds other &&
+        (!cas || (now ≥ 1 && this.all fun t => t.ts ≤ now))
+      let j := if inq then judgeMerge (if cas then some now else none) this other ist ichg else []
       let acc := (C03.normalize other).foldl C03.stepEntry { this := this, updated := [], tokCh := false }
       let tags := s!"cas={cas} upd={min acc.updated.length 3} tokch={acc.tokCh} conflict={acc.tokCh && C03.conflictsExist acc.this} inq={inq} n={min this.length 4}x{min other.length 4}"
       (diff, if j.isEmpty then "-" else ",".intercalate j, tags)
@@ -122,18 +163,96 @@ def pInQuantifier (ds : List PDesc) : Bool :=
   os.all (fun o => os.all fun q => !(o.id == q.id && o.ts == q.ts && (o.state == ownerDeleted) == (q.state == ownerDeleted)) || o == q)
 
 open C03P in
+/-- the property's rule for one partition, written from its text: a partition unknown to the receiver
+is taken whole; otherwise identity and tokens stay, and each of the two registers (state, lock) takes
+the newer timestamp — for the state register a deletion wins at equal timestamps. -/
+def lwwPart (t o : Option Part) : Option Part :=
+  match t, o with
+  | none, none => none
+  | some t, none => some t
+  | none, some o => some o
+  | some t, some o =>
+    let takeState := o.stateTs > t.stateTs || (o.stateTs == t.stateTs && o.state == partDeleted && t.state != partDeleted)
+    let takeLock := o.lockedTs > t.lockedTs
+    some { id := t.id, tokens := t.tokens,
+           state := if takeState then o.state else t.state, stateTs := if takeState then o.stateTs else t.stateTs,
+           locked := if takeLock then o.locked else t.locked, lockedTs := if takeLock then o.lockedTs else t.lockedTs }
+
+open C03P in
+/-- … and for one owner: the newer timestamp wins, a deletion wins at equal timestamps (timestamps ≥ 1) -/
+def lwwOwner (t o : Option Owner) : Option Owner :=
+  match t, o with
+  | none, none => none
+  | some t, none => some t
+  | none, some o => some o
+  | some t, some o =>
+    if o.ts > t.ts || (o.ts == t.ts && o.state == ownerDeleted && t.state != ownerDeleted) then some o else some t
+
+def dedupInts (l : List Int) : List Int := l.foldl (fun acc k => if acc.contains k then acc else acc ++ [k]) []
+
+open C03P in
+/-- Judge of a single partition-ring merge, from the property text. Gossip merge: every partition and
+every owner of the result is the per-register / per-entry last-writer-wins combination of the two
+inputs, nothing is lost and nothing else appears. Every merge (also local CAS, `casNow = some now`): a
+nil change means untouched content and the reported change, combined with the pre-merge state by the
+same rule, reproduces the result. Owner entries at timestamp < 1 are outside the proviso and skipped. -/
+def judgePMerge (casNow : Option Int) (this other st : PDesc) (chg : Option PDesc) : List String := Id.run do
+  let mut bad : List String := []
+  if chg.isNone && showPDesc st != showPDesc this then bad := "nil-change-but-content-changed" :: bad
+  let pkeys := dedupInts (this.parts.map (·.id) ++ other.parts.map (·.id))
+  let okeys := dedupKeys (this.owners.map (·.id) ++ other.owners.map (·.id))
+  let posO (o : Option Owner) : Bool := match o with | none => true | some o => o.ts ≥ 1
+  if !(st.parts.map (·.id)).Nodup then bad := "p-duplicate-partition-ids" :: bad
+  if !(st.owners.map (·.id)).Nodup then bad := "p-duplicate-owner-ids" :: bad
+  if casNow.isNone then
+    for k in pkeys do
+      let expect := lwwPart (getP this.parts k) (getP other.parts k)
+      let got := getP st.parts k
+      if got.isNone && expect.isSome then bad := s!"p-partition-lost:{k}" :: bad
+      else if expect != got then bad := s!"p-lww-violated:partition:{k}" :: bad
+    for p in st.parts do
+      if !pkeys.contains p.id then bad := s!"p-partition-from-nowhere:{p.id}" :: bad
+    for k in okeys do
+      if posO (getO this.owners k) && posO (getO other.owners k) then
+        let expect := lwwOwner (getO this.owners k) (getO other.owners k)
+        let got := getO st.owners k
+        if got.isNone && expect.isSome then bad := s!"p-owner-lost:{k}" :: bad
+        else if expect != got then bad := s!"p-lww-violated:owner:{k}" :: bad
+    for o in st.owners do
+      if !okeys.contains o.id then bad := s!"p-owner-from-nowhere:{o.id}" :: bad
+  match chg with
+  | none => pure ()
+  | some ch =>
+    -- a local CAS stamps its tombstones `now`: they can only take effect on entries not newer than `now`
+    let clockOK : Bool := match casNow with
+      | none => true
+      | some now => now ≥ 1 && this.parts.all (fun p => p.stateTs ≤ now) && this.owners.all (fun o => o.ts ≤ now)
+    if clockOK then
+      for k in dedupInts (pkeys ++ ch.parts.map (·.id) ++ st.parts.map (·.id)) do
+        if lwwPart (getP this.parts k) (getP ch.parts k) != getP st.parts k then bad := s!"p-change-insufficient:partition:{k}" :: bad
+      for k in dedupKeys (okeys ++ ch.owners.map (·.id) ++ st.owners.map (·.id)) do
+        if posO (getO this.owners k) && posO (getO ch.owners k) then
+          if lwwOwner (getO this.owners k) (getO ch.owners k) != getO st.owners k then bad := s!"p-change-insufficient:owner:{k}" :: bad
+  return bad
+
+open C03P in
 def handlePMerge (f : List String) : String × String × String :=
   match f with
   | [cas, now, this, other, st, chg] =>
-    match parsePDesc this, parsePDesc other, now.toInt? with
-    | some this, some other, some now =>
-      let m := C03P.merge (cas == "1") now this other
+    match parsePDesc this, parsePDesc other, now.toInt?, parsePDesc st with
+    | some this, some other, some now, some ist =>
+      let casB := cas == "1"
+      let m := C03P.merge casB now this other
       let ms := showPDesc m.state
       let mc := showPChange m.change
       let diff := if ms == st && mc == chg then "-" else s!"state={ms} change={mc}"
-      let j := if chg == "nil" && st != showPDesc this then "nil-change-but-content-changed" else "-"
-      (diff, j, s!"cas={cas} chg={m.change.isSome} n={min this.parts.length 3}+{min this.owners.length 3}")
-    | _, _, _ => ("bad-input", "-", "-")
+      let ichg : Option PDesc := if chg == "nil" then none else parsePDesc chg
+      -- map keys are unique (a Go map); the judge needs nothing else of the inputs
+      let inq := (this.parts.map (·.id)).Nodup && (this.owners.map (·.id)).Nodup &&
+        (other.parts.map (·.id)).Nodup && (other.owners.map (·.id)).Nodup
+      let j := if inq then judgePMerge (if casB then some now else none) this other ist ichg else []
+      (diff, if j.isEmpty then "-" else ",".intercalate j, s!"cas={cas} chg={m.change.isSome} inq={inq} n={min this.parts.length 3}+{min this.owners.length 3}")
+    | _, _, _, _ => ("bad-input", "-", "-")
   | _ => ("bad-fields", "-", "-")
 
 open C03P in
